@@ -3,6 +3,7 @@
 generate(fn) -> list of Obligation(name, hyps, goal, ...).  Loops are cut by invariants, calls by callee contracts.
 """
 import ast
+import os
 import copy
 import z3
 from .types import *
@@ -306,6 +307,33 @@ class Engine:
         ctx.assume(z3.ForAll([j, k], z3.Implies(z3.And(0 <= j, j <= k, k < n),
                                                 z3.Select(arr, k) - z3.Select(arr, j) >= k - j)))
         self.libs_used.add('LC-SORTED: sorted(set) is the strictly increasing enumeration of the set')
+        return V(lt, r)
+
+    def sorted_tuples_of_set(self, s, ctx):
+        """sorted(set of int tuples) (also with key=lambda x: (x[0], .., x[m-1])): the strictly increasing enumeration in
+        lexicographic order (LC-SORTED)"""
+        et = s.ty.elem
+        lt = TList(et)
+        nm = et.name.replace('[', '_').replace(']', '').replace(',', '_')
+        f = z3.Function('sorted_of_' + nm, s.ty.sort(), lt.sort())
+        idx = z3.Function('sorted_idx_' + nm, s.ty.sort(), et.sort(), z3.IntSort())
+        r = f(s.t)
+        arr, n = lt.arr(r), lt.n(r)
+        j = fresh('j', z3.IntSort())
+        k = fresh('k', z3.IntSort())
+        x = fresh('x', et.sort())
+        parts = lambda t: [et.acc(i, t) for i in range(len(et.elems))]
+
+        def lex_lt(a, b):
+            res = z3.BoolVal(False)
+            for pa, pb in reversed(list(zip(parts(a), parts(b)))):
+                res = z3.Or(pa < pb, z3.And(pa == pb, res))
+            return res
+        ctx.assume(n >= 0)
+        ctx.assume(z3.ForAll([k], z3.Implies(z3.And(0 <= k, k < n), z3.Select(s.t, z3.Select(arr, k)))))
+        ctx.assume(z3.ForAll([x], z3.Implies(z3.Select(s.t, x), z3.And(0 <= idx(s.t, x), idx(s.t, x) < n, z3.Select(arr, idx(s.t, x)) == x))))
+        ctx.assume(z3.ForAll([j, k], z3.Implies(z3.And(0 <= j, j < k, k < n), lex_lt(z3.Select(arr, j), z3.Select(arr, k)))))
+        self.libs_used.add('LC-SORTED: sorted(set) is the strictly increasing enumeration of the set (tuples: lexicographic order)')
         return V(lt, r)
 
     def str_repeat(self, a, b, ctx):
@@ -864,9 +892,21 @@ class Engine:
         raise OutOfSubset(f'.union on {recv.ty}')
 
     def bi_sorted(self, n, ctx, ev):
-        if n.keywords:
-            raise OutOfSubset('sorted with key')
         v = ev.ev(n.args[0], ctx)
+        if n.keywords:
+            # only key=lambda x: (x[0], x[1], .., x[m-1]) on a set of m-tuples of ints: the identity key, i.e. plain lexicographic order
+            ok = len(n.keywords) == 1 and n.keywords[0].arg == 'key' and isinstance(n.keywords[0].value, ast.Lambda) \
+                and isinstance(v.ty, TSet) and isinstance(v.ty.elem, TTuple) and all(e == INT for e in v.ty.elem.elems)
+            if ok:
+                lam = n.keywords[0].value
+                p_ = lam.args.args[0].arg
+                want = '(' + ', '.join(f'{p_}[{i}]' for i in range(len(v.ty.elem.elems))) + ')'
+                ok = ast.unparse(lam.body) == want
+            if not ok:
+                raise OutOfSubset('sorted with key')
+            return self.sorted_tuples_of_set(v, ctx)
+        if isinstance(v.ty, TSet) and isinstance(v.ty.elem, TTuple) and all(e == INT for e in v.ty.elem.elems):
+            return self.sorted_tuples_of_set(v, ctx)
         if isinstance(v.ty, TSet):
             return self.sorted_of_set(v, ctx)
         raise OutOfSubset(f'sorted({v.ty})')
@@ -1298,8 +1338,8 @@ class Engine:
         ctx.env.update(saved_env)
         lt = TList(elt.ty)
         R = None
-        if range_lo is None and self._elt_calls_pure(n.elt):
-            # [g(x) for x in src] with a side-effect-free element expression: the value is a FUNCTION of the source list value and
+        if range_lo is None and self._elt_calls_pure(n.elt) and any(isinstance(c_, ast.Call) for c_ in ast.walk(n.elt)):
+            # [g(x) for x in src] where g calls pure functions (x.serialize(), mass(x) ..): the value is a FUNCTION of the source list value and
             # of whatever else the expression mentions -- MAPF_<g>(src, c1..cn) -- so the same comprehension evaluated in a
             # contract clause denotes the same list
             from .execute import _consts_of
